@@ -93,9 +93,50 @@ PROPS["C04"] = dict(
 )
 
 
+COMMON_ASSUME = ["rustc MIR construction and trait resolution (nightly 1.97)",
+                 "library-semantics tables in rules/names.py and tables/*.json",
+                 "Rust ownership: Drop of the last owner runs after every borrow of the value has ended"]
+
+
+def reg(pid, run, floors, controls, rule, technique, decided, not_decided, extra_assume=()):
+    PROPS[pid] = dict(
+        run=run, floors=floors, controls=controls, rule=rule, technique="static analysis: " + technique,
+        explanation="Exhaustive static rule check over the compiled program (MIR facts of /repo's current tree). "
+                    "Decides these structural clauses, each a necessary condition of the property: " + decided +
+                    " It decides the shape of the code, not run-time behaviour.",
+        level_text="Exhaustive static rule check over the type-checked program: " + decided,
+        level_note="Not decided (remains behavioural): " + not_decided + " Trusted: rustc MIR, library-semantics tables, "
+                   "Rust ownership/drop semantics.",
+        assumptions=COMMON_ASSUME + list(extra_assume),
+    )
+
+
+import p_meta
+
+reg("C10", p_meta.c10, {"R-ORDER": 6, "R-WHO": 8, "R-TABLE": 1}, ["r_order"],
+    rule="R-ORDER never_after(fchmod, fchown); never_after(futimens, data write); each finalisation helper gated by "
+         "its own Config flag with the right polarity; R-TABLE the mode given to fchmod derives only from "
+         "Metadata::permissions; R-WHO finalisation only in Drop, helpers only in finalisation, CopyHandle not Clone, "
+         "no descriptor duplication, pool jobs own an Arc<CopyHandle>.",
+    technique="dominance/reachability ordering rules, config-flag control dependence, provenance of the mode argument, who-may-call",
+    decided="(a) fchown cannot follow fchmod and no data write can follow the timestamp setter; (b) permissions/"
+            "timestamps/ownership/fsync are each guarded by their own flag with the correct polarity; (e) the full "
+            "source mode is applied unmasked; (d) metadata is applied only by the handle's Drop, which ownership "
+            "orders after the last writer.",
+    not_decided="nanosecond equality, xattr contents, effect of umask, ACL handling by the kernel.")
+
+reg("C18", p_meta.c18, {"R-ORDER": 1, "R-WHO": 8}, ["r_order"],
+    rule="gated(sync, Config.fsync, true); never_after(fsync, data write); sync reaches fsync(2); ownership facts of C06(c).",
+    technique="config-flag control dependence + ordering + ownership/who-may-call facts (no schedule exploration)",
+    decided="fsync is issued iff requested, inside the finalisation that only the handle's Drop runs; nothing writes "
+            "data after it; the handle cannot be cloned nor its descriptors duplicated, so Drop runs after the last "
+            "block job on every schedule.",
+    not_decided="durability semantics of the kernel; that a failed fsync is reported is C04.")
+
 NOT_APPLICABLE = {
     "C19": "relation between returned integers and file bytes over kernel-supplied data (FIEMAP/SEEK_DATA) and all extent lists: "
            "arithmetic/relational reasoning over runtime values; any shape rule would freeze today's source fragment (DESIGN.md section 6)",
 }
 for _p in ["C01","C02","C03","C05","C06","C07","C08","C09","C10","C11","C12","C13","C14","C15","C16","C17","C18","C20"]:
+  if _p not in PROPS:
     NOT_APPLICABLE.setdefault(_p, "check under construction in this session (rule family not yet armed); will be claimed per DESIGN.md section 4")
